@@ -155,8 +155,8 @@ func (c *c19Ctx) genScenario(seed uint64, progs []*c19Prog) *Scenario {
 		s.Break = 1 + r.Intn(4)
 		s.BreakLine = r.Intn(len(s.Header) + len(s.Body))
 	}
-	dstKinds := []string{"absent", "empty", "shorter", "equal", "longer", "old_image", "ro_file", "ro_dir", "parent_missing", "parent_is_file", "is_dir", "symlink_file", "dangling_symlink", "dev_full", "relative", "dotdot", "longname", "emptyarg", "dev_null", "trailing_slash", "dir_no_search", "hardlink_to_src", "symlink_to_src", "barename"}
-	s.DstKind = dstKinds[r.weighted([]int{35, 4, 8, 5, 10, 6, 3, 3, 3, 2, 3, 3, 2, 3, 4, 3, 1, 1, 2, 2, 2, 2, 2, 4})]
+	dstKinds := []string{"absent", "empty", "shorter", "equal", "longer", "old_image", "ro_file", "ro_dir", "parent_missing", "parent_is_file", "is_dir", "symlink_file", "dangling_symlink", "dev_full", "relative", "dotdot", "longname", "emptyarg", "dev_null", "trailing_slash", "dir_no_search", "hardlink_to_src", "symlink_to_src", "barename", "rw_file_in_ro_dir"}
+	s.DstKind = dstKinds[r.weighted([]int{35, 4, 8, 5, 10, 6, 3, 3, 3, 2, 3, 4, 3, 3, 4, 3, 1, 1, 2, 2, 2, 2, 2, 4, 3})]
 	if (s.DstKind == "hardlink_to_src" || s.DstKind == "symlink_to_src") && s.SrcKind != "file" {
 		s.DstKind = "absent"
 	}
@@ -174,7 +174,7 @@ func (c *c19Ctx) genScenario(seed uint64, progs []*c19Prog) *Scenario {
 		s.Argv0 = pick(r, []string{"nask", "gosk-2.0", "as"})
 	}
 	s.SrcMtime = int64(r.Intn(2000000000)) + 1
-	if r.Chance(1, 5) || ((s.SrcKind == "mode000" || s.DstKind == "ro_file" || s.DstKind == "ro_dir" || s.DstKind == "dir_no_search") && r.Chance(3, 4)) {
+	if r.Chance(1, 5) || ((s.SrcKind == "mode000" || s.DstKind == "ro_file" || s.DstKind == "ro_dir" || s.DstKind == "dir_no_search" || s.DstKind == "rw_file_in_ro_dir") && r.Chance(3, 4)) {
 		s.Uid = nobody
 	}
 	if s.SrcKind == "stdin" {
